@@ -101,6 +101,8 @@ def judge(chk, mid, m, snaps, obs):
         chk.violation("DOT differs between builds of the same model (%d builds)" % obs["dot_builds"], rep)
     elif not all(obs["rr_dot_equal"]):
         chk.violation("g.Reversed().Reversed().GetDOT() differs from g.GetDOT() in %d of %d repetitions" % (obs["rr_dot_equal"].count(False), len(obs["rr_dot_equal"])), rep)
+    elif obs.get("render_then_reverse_differs"):
+        chk.violation("g.Reversed().GetDOT() depends on whether g.GetDOT() was called before the reversal%s" % (" (it returns g's own text)" if obs.get("reversed_is_own_text") else ""), rep)
     elif obs["reversed_dots"] > 1:
         chk.violation("g.Reversed().GetDOT() takes %d different values over repeated reversals of identical graphs" % obs["reversed_dots"], rep)
 
